@@ -16,10 +16,20 @@ def outcome(r):
     return "ok" if r["out"] == "ok" else ("budget" if r["out"] == "budget" else r["type"])
 
 
+_TABLE_OBJECTS = {}
+
+
 def shuffles_of(tbl):
+    """The numpy table handed to the library. One object per table (by identity of the row list), shared by every call that uses
+    that table - as a user would keep one table for a whole session."""
     if tbl is None or all(list(row) == IDENT for row in tbl):
         return None
-    return numpy.array(tbl, dtype=int)
+    key = id(tbl)
+    if key not in _TABLE_OBJECTS or _TABLE_OBJECTS[key][0] is not tbl:
+        if len(_TABLE_OBJECTS) > 64:
+            _TABLE_OBJECTS.clear()
+        _TABLE_OBJECTS[key] = (tbl, numpy.array(tbl, dtype=int))
+    return _TABLE_OBJECTS[key][1]
 
 
 def run_encode(acc, start, msg, mode, vtlen, tbl, budget=None, as_list=False):
@@ -151,6 +161,7 @@ def make_msg(rng, L):
 
 def record_enc_cases(rng, n, maxbits, orders=(2, 3, 4, 5), budget_factor=1):
     graphs, tables, cases = [], [], []
+    shared_tbl = {}
     for i in range(n):
         k = rng.choice(orders)
         if i % 3 == 0:
@@ -170,9 +181,13 @@ def record_enc_cases(rng, n, maxbits, orders=(2, 3, 4, 5), budget_factor=1):
             mode = "fast" if (i % 5 == 0 and j != 2) else "normal"
             vtlen = rng.choice([0, 0, 1, 2, 4, 8, 33, 64])
             if rng.random() < 0.5:
-                tables.append(random_table(rng, 4 ** k))
-                t = len(tables)
-                tbl = tables[-1]
+                if k in shared_tbl and rng.random() < 0.6:
+                    t = shared_tbl[k]                      # the same table object serves several graphs of this order
+                else:
+                    tables.append(random_table(rng, 4 ** k))
+                    t = len(tables)
+                    shared_tbl.setdefault(k, t)
+                tbl = tables[t - 1]
             else:
                 t, tbl = 0, None
             e = run_encode(acc, start, msg, mode, vtlen, tbl, budget=budget_factor * (L * nreach + 4), as_list=(j == 1))
@@ -182,6 +197,26 @@ def record_enc_cases(rng, n, maxbits, orders=(2, 3, 4, 5), budget_factor=1):
                 d = run_decode(acc, start, e["s"], L, mode, e["c"], tbl)
                 c["dec_out"], c["decoded"] = d["out"], d["bits"]
             cases.append(c)
+        # history on the same accessor OBJECT: a documented in-place edit (arc removal) between two uses of the graph. The arc that
+        # will go is learnt on a copy; the vertex it leaves is used as start before and after the edit.
+        if i % 2 == 0 and k <= 3:
+            probe = impl.call(dsw.remove_nasty_arc, acc.copy(), dsw.accessor_to_latter_map(acc.copy()), _alarm=60)
+            if probe["out"] == "ok":
+                former = int(probe["value"][2][0])
+                warm = make_msg(rng, 40)
+                run_encode(acc, former, warm, "normal", 0, None, budget=budget_factor * (40 * nreach + 4))       # not logged: first use
+                r = impl.call(dsw.remove_nasty_arc, acc, dsw.accessor_to_latter_map(acc), _alarm=60)
+                if r["out"] == "ok":
+                    graphs.append(impl.live_of(acc))
+                    g2 = len(graphs)
+                    for msg in (warm, make_msg(rng, 24), make_msg(rng, 64)):
+                        e = run_encode(acc, former, msg, "normal", 0, None, budget=budget_factor * (len(msg) * nreach + 4))
+                        c = {"kind": "enc", "g": g2, "tbl": 0, "start": former, "msg": msg, "mode": "normal", "vtlen": 0, "enc_out": e["enc_out"],
+                             "strand": e["strand"], "vt": e["vt"], "ticks": e["ticks"], "dec_out": "none", "decoded": []}
+                        if e["enc_out"] == "ok":
+                            d = run_decode(acc, former, e["s"], len(msg), "normal", e["c"], None)
+                            c["dec_out"], c["decoded"] = d["out"], d["bits"]
+                        cases.append(c)
     return graphs, tables, cases
 
 
